@@ -152,7 +152,7 @@ theorem C06_input_untouched (s : Stream) (ops : List Op) : (run s ops).2.content
 
 /-! ## (e) address / hash dependent values -/
 
-def reviewedIdUses : List String := ["id(node)", "id(omath)"]   -- keys of per-call caches / identity sets over live objects
+def reviewedIdUses : List String := ["id(node)", "id(omath)", "id(member)", "id(file_info)", "id(self._files[file_idx])"]   -- keys of per-call caches / identity sets over objects that stay alive (tree nodes, the 7z reader's FileInfo list: membership only)
 theorem id_uses_reviewed : idHashUses.all (fun u => reviewedIdUses.contains u.2) = true := by decide
 
 /-! ## Non-vacuity -/
